@@ -90,6 +90,8 @@ func loadRepo(dir string, overlay map[string][]byte) (*Ctx, error) {
 	}
 	curLayout = nil
 	curLayout = computeLayoutAliases(c)
+	computeFuncAliases(c, curLayout)
+	curCtx = c
 	// Enumerate functions: package members, methods of every named type (AllFunctions misses methods of
 	// generic types that nothing references), closures recursively.
 	var rels []string
@@ -116,7 +118,7 @@ func loadRepo(dir string, overlay map[string][]byte) (*Ctx, error) {
 				if n == "init" {
 					continue
 				}
-				c.addFunc(rel, n, m)
+				c.addFunc(rel, canonFuncName(rel, "", n), m)
 			case *ssa.Type:
 				nt, ok := m.Type().(*types.Named)
 				if !ok {
@@ -128,7 +130,7 @@ func loadRepo(dir string, overlay map[string][]byte) (*Ctx, error) {
 					if fn == nil {
 						continue
 					}
-					c.addFunc(rel, canonTypeName(rel, n)+"."+meth.Name(), fn)
+					c.addFunc(rel, canonTypeName(rel, n)+"."+canonFuncName(rel, canonTypeName(rel, n), meth.Name()), fn)
 				}
 			}
 		}
@@ -138,9 +140,10 @@ func loadRepo(dir string, overlay map[string][]byte) (*Ctx, error) {
 				if !ok {
 					continue
 				}
-				key := rel + "." + fd.Name.Name
+				key := rel + "." + canonFuncName(rel, "", fd.Name.Name)
 				if fd.Recv != nil && len(fd.Recv.List) == 1 {
-					key = rel + "." + canonTypeName(rel, recvTypeName(fd.Recv.List[0].Type)) + "." + fd.Name.Name
+					rt := canonTypeName(rel, recvTypeName(fd.Recv.List[0].Type))
+					key = rel + "." + rt + "." + canonFuncName(rel, rt, fd.Name.Name)
 				}
 				c.decls[key] = fd
 			}
